@@ -124,8 +124,11 @@ def main():
                 for cn in case.conns:
                     if cn.kind == "tls":
                         cv = tlsgen.find_conv(res[1], cn.client)
+                        if cv and "-a" not in args and (cv["c"], cv["s"]) != (cn.s.conn.plaintext(False), cn.s.conn.plaintext(True)):
+                            why = "the segments of a conversation do not concatenate to the records (client %d/%d, server %d/%d bytes)" % (
+                                len(cv["c"]), len(cn.s.conn.plaintext(False)), len(cv["s"]), len(cn.s.conn.plaintext(True)))
                         bound = carrying_bound(cn, "-a" in args)
-                        if cv and len(cv["segs"]) > bound:
+                        if not why and cv and len(cv["segs"]) > bound:
                             why = "the records of a conversation are carried by %d (record, input packet) pairs but exported in %d segments" % (bound, len(cv["segs"]))
             if why:
                 fails.append({"what": "%s capture, options %s: %s" % (label, args, why), "capture": cap.hex(), "keylog": keylog, "args": args})
